@@ -368,6 +368,47 @@ def handle_group(text):
     return out
 
 
+def handle_multi(text):
+    """C14: several contracts inside ONE Tealer object (as in group mode), detectors run in per-contract mode,
+    twice; returns per detector the path lists contract by contract (first and second run)"""
+    from tealer.tealer import Tealer
+    from tealer.utils.teal_enums import ContractType
+    from tealer.teal.parse_functions import construct_function
+    from tealer.execution_context.transactions import Transaction, GroupTransaction
+
+    srcs = text.split("\n@@----\n")
+    contracts, groups = {}, []
+    for k, src in enumerate(srcs):
+        name = f"c{k}"
+        teal, _, _ = quiet(parse_teal, src, name)
+        function = construct_function(teal, ["B0"], name)
+        teal.functions = {name: function}
+        contracts[name] = teal
+        txn = Transaction()
+        if teal.contract_type == ContractType.LogicSig:
+            txn.transacton_id = name
+            txn.has_logic_sig = True
+            txn.logic_sig = function
+        else:
+            txn.application = function
+        group = GroupTransaction()
+        group.operation_name = name
+        group.transactions = [txn]
+        txn.group_transaction = group
+        groups.append(group)
+    tealer = Tealer(contracts, groups)
+    dcs = detector_classes()
+    out = {}
+    for name in DETECTORS:
+        det = dcs[name](tealer)
+        runs = []
+        for _ in range(2):
+            outs, _, _ = quiet(det.detect)
+            runs.append([[[b.idx for b in p] for p in o.paths] for o in outs])
+        out[name] = runs
+    return out
+
+
 def sval_json(v, depth=12):
     from tealer.analyses.utils.stack_ast_builder import UnknownStackValue
 
@@ -443,6 +484,8 @@ def main():
                 r = handle_group(text)
             elif kind == "ast":
                 r = handle_ast(text)
+            elif kind == "multi":
+                r = handle_multi(text)
             elif kind == "regex":
                 r = handle_regex(text, rest[0] if rest else "*")
             else:
